@@ -3,7 +3,8 @@ scripted layout sequences.  stdin: JSON list of cases, stdout: JSON list of resu
 
 case = {"term": "kitty"|"konsole"|"other", "ksup": bool, "size": [cols, rows], "z_start": int|None,
         "slots": {name: spec}, "steps": [step, ...]}
-spec = {"kind": "kitty"|"iterm2"|"block", "img": int, "upscale": bool}
+spec = {"kind": "kitty"|"iterm2"|"block", "img": int, "upscale": bool,
+        "cls": 0 (UrwidImage) | 1 (a subclass) | 2 (a subclass of that subclass) | 3 (another subclass)}
 step = {"op": "draw", "layout": L} | {"op": "redraw"} | {"op": "draw_bad", "layout": L}
      | {"op": "clear"} | {"op": "stop"} | {"op": "start"}
      | {"op": "new", "slot": name, "spec": spec} | {"op": "del", "slot": name}
@@ -70,6 +71,12 @@ class Case:
         UrwidImage._ti_next_z_index = case.get("z_start") or 1
         UrwidImageCanvas._ti_disguise_state = 0
         ucanvas.CanvasCache.clear()
+        # the widget classes of the session: UrwidImage itself and (fresh for every session, so
+        # that no class-level state survives) three members of its class tree
+        Sub = type("Sub", (UrwidImage,), {})
+        SubSub = type("SubSub", (Sub,), {})
+        Other = type("Other", (UrwidImage,), {})
+        self.classes = [UrwidImage, Sub, SubSub, Other]
         self.size = tuple(case["size"])
         self.buf = io.StringIO()
         self.screen = UrwidImageScreen(sys.__stdin__, self.buf)
@@ -85,7 +92,8 @@ class Case:
     def new_widget(self, spec):
         img = make_image(spec.get("img", 0))
         cls = {"kitty": KittyImage, "iterm2": ITerm2Image, "block": BlockImage}[spec["kind"]]
-        w = UrwidImage(cls(img), spec.get("fmt", ""), upscale=bool(spec.get("upscale", True)))
+        wcls = self.classes[int(spec.get("cls", 0)) % len(self.classes)]
+        w = wcls(cls(img), spec.get("fmt", ""), upscale=bool(spec.get("upscale", True)))
         self.serial += 1
         w._verif_serial = self.serial
         w._verif_kind = spec["kind"]
@@ -191,6 +199,8 @@ class Case:
         self.known_live = now
         res["free_set"] = sorted(UrwidImage._ti_free_z_indexes)
         res["next_z"] = UrwidImage._ti_next_z_index
+        # the allocator must be ONE for the whole class tree: what each class sees
+        res["class_state"] = [[c._ti_next_z_index, sorted(c._ti_free_z_indexes)] for c in self.classes]
         res["cviews"] = sorted(
             [self.canv_ref(cv[0])["id"], *cv[1:]] for cv in self.screen._ti_image_cviews
         )
@@ -226,7 +236,8 @@ class Case:
                 else:
                     self.slots[st["slot"]] = w
                     res["alloc"] = ["ok", w._verif_serial, st["spec"]["kind"],
-                                    w._ti_z_index if hasattr(w, "_ti_z_index") else None]
+                                    w._ti_z_index if hasattr(w, "_ti_z_index") else None,
+                                    int(st["spec"].get("cls", 0))]
                     del w
             elif op == "del":
                 self.slots.pop(st["slot"], None)
@@ -281,6 +292,7 @@ class Case:
             self.last_canvas = None
             self.canv_ids.clear()
             self.screen = None
+            self.classes = [UrwidImage]
             ucanvas.CanvasCache.clear()
             gc.collect()
         return out
